@@ -28,7 +28,7 @@ from ..pool import WorkerDied
 ID = "C28"
 LEVEL = "exploration"
 BUDGET = {"quick": 20, "thorough": 240}
-FLOOR = {"quick": 400, "thorough": 600}
+FLOOR = {"quick": 200, "thorough": 350}
 RULE = ("per case one function group and a batch of 48 inputs: Unicode strings (identifier styles, casing "
         "special cases such as sharp s / dotted I / final sigma / Kelvin sign, combining marks, all 25 "
         "White_Space code points and look-alikes that are not White_Space), delimiters and substrings "
